@@ -259,6 +259,9 @@ def main(prop, argv):
     rng = random.Random(seed * 1000003 + int(prop.id[1:]))
     os.makedirs(EVID, exist_ok=True)
     ev_path = os.path.join(EVID, prop.id + '.json')
+    for old in glob.glob(os.path.join(REPLAYS, '%s_%s_*.json' % (prop.id, tier))):
+        try: os.remove(old)
+        except OSError: pass
     out_lines = []
     violations = []     # (replay path, suffix)
     broken = []         # what no longer checks
